@@ -9,7 +9,7 @@ os.makedirs(dd, exist_ok=True)
 for f in ('patch.diff', 'demo_test.go', 'notes.md'):
     shutil.copy(os.path.join(src, f), dd)
 json.dump({"id": sid, "property": prop, "status": status,
-           "origin": "independent sub-agent given only the property text and a scratch worktree" + ("" if ORIGIN_FIRST else " (second round: also told which trigger conditions the first round had used)"),
+           "origin": "independent sub-agent given only the property text and a scratch worktree" + ("" if ORIGIN_FIRST else (" (third round: told the trigger conditions of all earlier seeds)" if len(sys.argv) > 7 and sys.argv[7] == 'third' else " (second round: also told which trigger conditions the first round had used)")),
            "needs_to_manifest": need,
            "confirmed": "tools/try_seed.sh: change compiles, existing package tests pass with it, demo_test.go fails with it and passes without it (scratch worktree under /tmp, removed afterwards)",
            "detected_by": det, "history": hist,
